@@ -416,6 +416,31 @@ class ProgGen:
         self.pending.append({"op": "add", "pulse": gen_pulse(r, so, d=unit(so) * pick(r, [1, 3, 8]), phase=self._phase(m)),
                              "ch": m, "protocol": "no-delay"})
 
+    def _motif_idle_then_eom(self, op: dict) -> None:
+        """After a pulse on a channel with an EOM (not in EOM mode): two or three delays - a short one first, then one
+        of about the rise time - that together stay below the pulse's fall time, then enable_eom_mode (whose buffer
+        has to wait for the rest of the ramp-down). (opt-in)"""
+        if "idle-then-eom" not in self.motifs or self.pending:
+            return
+        r = self.rng
+        n = op["ch"]
+        c = self.chans.get(n)
+        if c is None or c["eom"] or c["dmm"] or not c["spec"].get("eom") or not c["spec"].get("mod_bandwidth") \
+                or r.random() >= self.motifs["idle-then-eom"]:
+            return
+        sp = c["spec"]
+        clk, mn = int(sp.get("clock_period", 1)), int(sp.get("min_duration", 1))
+        unit = -(-max(mn, 1) // clk) * clk
+        rise = int(0.48 / float(sp["mod_bandwidth"]) * 1e3)
+        second = max(unit, -(-int(rise * pick(r, [1.0, 1.1, 1.5])) // clk) * clk)
+        durs = [unit * pick(r, [1, 1, 2])] + ([unit] if r.random() < 0.3 else []) + [second]
+        for d in durs:
+            self.pending.append({"op": "delay", "duration": d, "ch": n})
+        amax = sp.get("max_amp") or 12.0
+        self.pending.append({"op": "enable_eom_mode", "ch": n, "amp_on": r6(amax * pick(r, [0.3, 0.6, 1.0])),
+                             "detuning_on": pick(r, [0.0, 1.0, -2.0]),
+                             **({"opt_off": pick(r, [0.0, -10.0, 10.0])} if r.random() < 0.3 else {})})
+
     def _motif_eom_at_zero(self, op: dict, c: dict) -> None:
         """EOM mode entered on a channel that is still empty (for a local one right after its first, zero-length,
         target instruction): blocks starting at t = 0."""
@@ -795,6 +820,7 @@ class ProgGen:
             self.nonempty = True
             self._motif_fall(op)
             self._motif_short_behind(op)
+            self._motif_idle_then_eom(op)
             if "phase" in op["pulse"]:
                 self.last_phase[op["ch"]] = op["pulse"]["phase"]
             if op["pulse"].get("pps"):
